@@ -54,7 +54,9 @@ func getLimiterPolicy(up map[string]xdsresource.Resource) map[uint32]uint32 {
 	}
 	tpfs := make(map[uint32]uint32)
 	for _, lis := range lds.NetworkFilters {
-		if lis.InlineRouteConfig != nil {
+		// the local rate limit is configured on HTTP connection managers; a thrift proxy filter
+		// (no route port, no token bucket) must not mask the limit of the filter chain without a port
+		if lis.FilterType == xdsresource.NetworkFilterTypeHTTP && lis.InlineRouteConfig != nil {
 			tpfs[lis.RoutePort] = lis.InlineRouteConfig.TokensPerFill
 		}
 	}
